@@ -70,7 +70,7 @@ def info(tier):
         "`fun`: consistent, belonging to another iterate, huge, NaN) through the minimize seam; "
         "%d directed handle-retrieval recipes on solved models with pairwise distinct optimal values, for 3 solver "
         "methods; distinct = canonical (problem, method) hashes" % len(HANDLES),
-        "required_cells": ["keys", "objective:optimal", "sense:min", "sense:max", "kind:constant-objective", "kind:objective-subset",
+        "required_cells": ["keys", "objective:optimal", "sense:min", "sense:max", "kind:constant-objective", "kind:objective-subset", "kind:symmetric-matrix-objective",
                            "kind:lp", "kind:nlp", "history:flip-sense-same-object", "stub:fun-consistent", "stub:fun-stale-iterate", "stub:fun-huge", "stub:fun-nan"] + [f"handle:{h}" for h, _, _ in HANDLES] + ["handle:by-name", "handle:get-default"],
         "assumptions": ["objective compared at rtol 1e-7 (values are float64 round-trips of the solver's point)"],
     }
@@ -208,6 +208,17 @@ def special_problems(rng):
                                      "sense": "min", "constraints": c1}))
     out.append(("objective-subset", {"decls": d1, "objective": ["neg", ["bin", "+", ["bin", "**", ["var", "a"], ["raw", 2, "int"]], ["raw", 3.0, "float"]]],
                                      "sense": "max", "constraints": c1}))
+    # objectives that reduce a symmetric matrix (every off-diagonal variable occupies two positions)
+    Sm = ["mat", "S"]
+    d2 = [{"k": "mat", "name": "S", "r": 3, "c": 3, "sym": True, "lb": -2.0, "ub": 3.0}]
+    dev = None
+    for (i, j), tv in {(0, 0): 1.0, (0, 1): 0.75, (0, 2): -0.5, (1, 1): 1.5, (1, 2): 0.25, (2, 2): 2.0}.items():
+        t = ["bin", "**", ["bin", "-", ["mel", Sm, i, j], ["raw", tv, "float"]], ["raw", 2, "int"]]
+        dev = t if dev is None else ["bin", "+", dev, t]
+    for red in (["msum", Sm], ["fro", Sm], ["msum", ["T", Sm]], ["msum", ["sub", Sm, 0, 2, 0, 3]], ["bin", "**", ["fro", Sm], ["raw", 2, "int"]]):
+        out.append(("symmetric-matrix-objective", {"decls": d2, "objective": ["bin", "+", dev, ["bin", "*", ["raw", 0.5, "float"], red]], "sense": "min", "constraints": []}))
+    out.append(("symmetric-matrix-objective", {"decls": d2, "objective": ["bin", "-", ["msum", Sm], dev], "sense": "max",
+                                               "constraints": [["rel", "<=", ["trace", Sm], ["raw", 4.0, "float"], "direct"]]}))
     return out
 
 
